@@ -57,9 +57,9 @@ def run(ctx):
             nq += 1
             if q["valid"] and q["truth"]:
                 continue
-            if A.unsafe_query(q["query"]):
-                if ctx.is_known("c16-unsafe-string"):
-                    continue
+            uv = A.unsafe_value(r.get("entry_json"), q["query"])
+            if (uv is True or (uv is None and A.unsafe_query(q["query"]))) and ctx.is_known("c16-unsafe-string"):
+                continue
             k = (fam, q["which"], r.get("method"))
             if reported.get(k, 0) < 1 and sum(reported.values()) < 5:
                 reported[k] = 1
